@@ -14,14 +14,14 @@ pub open spec fn mp_get<T>(m: MinusPlus<T>, side: MinusPlusIndex) -> T {
 impl<T> std::ops::Index<MinusPlusIndex> for MinusPlus<T> {
     type Output = T;
     //@ fn src/minusplus.rs MinusPlus@Index::index
-    //@| ensures *r == mp_get(*self, side),
+    //@| ensures *r == mp_get(*self, side),  // @C01,C05,C07:minusplus.index.minus.is.left.plus.is.right
 }
 impl<T> vstd::std_specs::core::IndexSpecImpl<MinusPlusIndex> for MinusPlus<T> {
     open spec fn index_req(&self, side: &MinusPlusIndex) -> bool { true }
 }
 impl<T> std::ops::IndexMut<MinusPlusIndex> for MinusPlus<T> {
     //@ fn src/minusplus.rs MinusPlus@IndexMut::index_mut
-    //@| ensures *r == mp_get(*old(self), side),
+    //@| ensures *r == mp_get(*old(self), side),  // @C01,C05,C07:minusplus.index_mut.changes.the.named.side.only
     //@|         match side {
     //@|             MinusPlusIndex::Minus => final(self).minus == *final(r) && final(self).plus == old(self).plus,
     //@|             MinusPlusIndex::Plus => final(self).plus == *final(r) && final(self).minus == old(self).minus,
@@ -29,5 +29,5 @@ impl<T> std::ops::IndexMut<MinusPlusIndex> for MinusPlus<T> {
 }
 impl<T> MinusPlus<T> {
     //@ fn src/minusplus.rs MinusPlus::new
-    //@| ensures r.minus == minus, r.plus == plus,
+    //@| ensures r.minus == minus, r.plus == plus,  // @C01,C05,C07:minusplus.new.keeps.the.sides
 }
